@@ -44,6 +44,7 @@ type gen struct {
 	objs    []string // object user types declared so far (usable as references)
 	aliases []string
 	feat    map[string]bool
+	unions  map[string]bool
 }
 
 func (g *gen) f(s string) { g.feat[s] = true }
@@ -179,7 +180,17 @@ func (g *gen) members(max int, allowUnion bool) []Fld {
 	}
 	if withUnion {
 		g.f("oneof")
-		u := Fld{Name: names[n+nalt], Alts: []Fld{}}
+		// (two unions of one design with the same name and an equally named primitive
+		// alternative share goa's wrapper type name: recorded finding; names kept apart here)
+		if g.unions == nil {
+			g.unions = map[string]bool{}
+		}
+		un := names[n+nalt]
+		if g.unions[norm(un)] {
+			un = fmt.Sprintf("%s_u%d", un, len(g.unions))
+		}
+		g.unions[norm(un)] = true
+		u := Fld{Name: un, Alts: []Fld{}}
 		for i := 0; i < nalt; i++ {
 			u.Alts = append(u.Alts, F(tags[n+i], names[n+i], g.leaf()))
 		}
@@ -261,6 +272,47 @@ func (g *gen) primFields(io *IO) []string {
 	return out
 }
 
+// objFields gives the attributes of an object IO (inline or user type), nil otherwise.
+func (g *gen) objFields(io *IO) []Fld {
+	if io == nil {
+		return nil
+	}
+	if io.T == nil {
+		return io.Fields
+	}
+	if io.T.K == "user" {
+		if ut := g.d.ut(io.T.Ref); ut != nil && ut.Alias == nil {
+			return ut.Fields
+		}
+	}
+	return nil
+}
+
+// explicitMessage draws an explicit Message(...) listing: some attributes that are not
+// mapped elsewhere, in any order, some with attribute-level DSL.
+func (g *gen) explicitMessage(io *IO, taken ...[]string) []MsgAttr {
+	skip := map[string]bool{}
+	for _, t := range taken {
+		for _, n := range t {
+			skip[n] = true
+		}
+	}
+	var out []MsgAttr
+	for _, f := range g.objFields(io) {
+		if f.Alts != nil || f.Sec != "" || skip[f.Name] || g.r.Bool() {
+			continue
+		}
+		a := MsgAttr{Name: f.Name, Meta: g.r.Bool(), Desc: g.r.Chance(1, 3)}
+		a.MaxLen = f.T.K == "prim" && f.T.P == "String" && f.V == nil && g.r.Chance(1, 3)
+		out = append(out, a)
+	}
+	for i := len(out) - 1; i > 0; i-- {
+		j := g.r.Intn(i + 1)
+		out[i], out[j] = out[j], out[i]
+	}
+	return out
+}
+
 func (g *gen) subset(xs []string, num, den int) (in, rest []string) {
 	for _, x := range xs {
 		if g.r.Chance(num, den) {
@@ -304,6 +356,11 @@ func (g *gen) method(name string) Meth {
 				g.f("metadata")
 			}
 		}
+		if g.r.Chance(1, 4) {
+			if m.ReqMsg = g.explicitMessage(m.Payload, m.Metadata); len(m.ReqMsg) > 0 {
+				g.f("explicit-request-message")
+			}
+		}
 	} else {
 		g.f("empty-payload")
 	}
@@ -323,6 +380,11 @@ func (g *gen) method(name string) Meth {
 			}
 			if len(m.Trailers) > 0 {
 				g.f("trailers")
+			}
+		}
+		if g.r.Chance(1, 4) {
+			if m.RespMsg = g.explicitMessage(m.Result, m.Headers, m.Trailers); len(m.RespMsg) > 0 {
+				g.f("explicit-response-message")
 			}
 		}
 	} else {
@@ -426,6 +488,22 @@ func Covering() []*Design {
 		UT{Name: "Cred", Fields: insertSec([]Fld{F(1, "aa", P("Int")), F(2, "bb", P("String"))}, "jwt", 1, false, 0)}))
 	out = append(out, one("cover:security-with-metadata", Meth{Security: "apikey", Payload: &IO{Fields: insertSec([]Fld{F(1, "aa", P("Int")), F(2, "bb", P("String"))}, "apikey", 0, true, 9)},
 		Metadata: []string{"bb"}, Result: obj}))
+	// explicit Message(...) on the request and on the response side: a subset / all of the
+	// attributes, reordered, with and without attribute-level DSL
+	pm := &IO{Fields: []Fld{Rq(F(4, "key", P("String"))), F(7, "limit", P("Int")), F(2, "body_part", P("Bytes")), F(9, "flag", P("Boolean")), F(5, "it", U("Item"))}}
+	for _, ms := range [][]MsgAttr{
+		{{Name: "limit"}},
+		{{Name: "flag", Meta: true}, {Name: "key", Meta: true, Desc: true, MaxLen: true}},
+		{{Name: "it", Desc: true}, {Name: "body_part", Meta: true}, {Name: "key"}, {Name: "limit", Meta: true}, {Name: "flag", Desc: true}},
+	} {
+		out = append(out, one("cover:explicit-message", Meth{Payload: pm, ReqMsg: ms, Result: pm, RespMsg: ms}, item))
+		out = append(out, one("cover:explicit-message-user-type", Meth{Payload: &IO{T: U("Pm")}, ReqMsg: ms, Result: &IO{T: U("Pm")}, RespMsg: ms}, item, UT{Name: "Pm", Fields: pm.Fields}))
+	}
+	out = append(out, one("cover:explicit-message-with-metadata", Meth{Payload: pm, ReqMsg: []MsgAttr{{Name: "flag", Meta: true}, {Name: "limit", Desc: true}}, Metadata: []string{"key"},
+		Result: pm, RespMsg: []MsgAttr{{Name: "it", Meta: true}}, Headers: []string{"key"}, Trailers: []string{"limit"}}, item))
+	// required and optional attributes through metadata, headers, trailers
+	rq := &IO{Fields: []Fld{Rq(F(1, "ra", P("String"))), F(2, "ob", P("String")), Rq(F(3, "rc", P("Int"))), F(4, "od", P("Boolean")), Rq(F(5, "re", P("Float64"))), F(6, "keep", P("Int"))}}
+	out = append(out, one("cover:required-metadata", Meth{Payload: rq, Metadata: []string{"ra", "ob", "rc", "od"}, Result: rq, Headers: []string{"ra", "ob"}, Trailers: []string{"rc", "od", "re"}}))
 	// boundary tags and names
 	out = append(out, one("cover:boundary-tags", Meth{Payload: &IO{Fields: []Fld{F(536870911, "max", P("Int")), F(18999, "below", P("Int")),
 		F(20000, "above", P("Int")), F(1, "one", P("Int"))}}}))
@@ -450,6 +528,10 @@ type Witness struct {
 	Expect []string // signatures that must be reported
 	Panics bool     // rendering must panic (nonnumeric tag)
 }
+
+// witnessesOutsideModel: the defect lies before the attribute tree the model is given
+// (goa's DSL resolved a type wrongly): no model case
+var witnessesOutsideModel = map[string]bool{"union-name-collision": true}
 
 func Witnesses() []Witness {
 	pay := func(fs ...Fld) Meth { return Meth{Payload: &IO{Fields: fs}} }
@@ -476,6 +558,9 @@ func Witnesses() []Witness {
 			[]string{"generator-panic/wrapper-name-collision"}, true},
 		{"attribute-named-field", one("witness:attribute-named-field", Meth{Result: &IO{Fields: []Fld{{Name: "choice", Alts: []Fld{F(3, "id", U("Point"))}}}}},
 			UT{Name: "Point", Fields: []Fld{F(3, "field", P("String"))}}), []string{"generator-panic/attribute-named-field"}, true},
+		{"union-name-collision", one("witness:union-name-collision", Meth{Result: &IO{Fields: []Fld{F(4, "value", U("Pair")),
+			{Name: "n", Alts: []Fld{F(7, "zed", P("Boolean"))}}}}}, UT{Name: "Pair", Fields: []Fld{{Name: "n", Alts: []Fld{F(6, "zed", P("UInt"))}}}}),
+			[]string{"oneof-alternative-type-name-collision"}, false},
 		{"alias-of-collection", one("witness:alias-of-collection", Meth{Payload: &IO{Fields: []Fld{F(1, "ints", U("Ints"))}}}, UT{Name: "Ints", Alias: Arr(P("Int"))}),
 			[]string{"usertype-alias-of-collection-malformed"}, false},
 	}
